@@ -187,8 +187,8 @@ fn dump_store(store: &Store, shards: usize) -> String {
 
 static GATES: OnceLock<Arc<Gates>> = OnceLock::new();
 static PLAN: Mutex<Option<Arc<Plan>>> = Mutex::new(None);
-const STEP_TIMEOUT: Duration = Duration::from_secs(20);
-const RECV_TIMEOUT: Duration = Duration::from_secs(20);
+const STEP_TIMEOUT: Duration = Duration::from_secs(90);
+const RECV_TIMEOUT: Duration = Duration::from_secs(90);
 
 fn gates() -> &'static Arc<Gates> {
     GATES.get_or_init(Gates::new)
@@ -850,6 +850,7 @@ fn gen_c05_history(rng: &mut Rng, visual: bool) -> (Vec<Call>, i64) {
         objs.push(v);
     }
     let nframes = 5 + rng.below(6) as usize;
+    let mut serial = 0u32;
     let mut calls = vec![];
     let mut last: Vec<Vec<Option<Universal2DBox>>> = objs.iter().map(|o| vec![None; o.len()]).collect();
     let mut margin = 1000i64;
@@ -870,7 +871,14 @@ fn gen_c05_history(rng: &mut Rng, visual: bool) -> (Vec<Call>, i64) {
                     aspect: 0.625,
                     h: 32.0,
                     conf: 1.0,
-                    feat: if visual { Some(vec![3.0 * j as f32 + rng.dyadic(0, 4, 5), si as f32 + rng.dyadic(0, 4, 5)]) } else { None },
+                    // every detection gets its own offset (no two feature distances of a scene coincide: the appearance
+                    // stage compares sums of distances and an exact tie is resolved by HashMap order)
+                    feat: if visual {
+                        serial += 1;
+                        Some(vec![3.0 * j as f32 + serial as f32 / 509.0, si as f32 + (serial * serial % 31) as f32 / 1021.0])
+                    } else {
+                        None
+                    },
                 };
                 present.push(j);
                 ds.push(d);
@@ -1006,7 +1014,7 @@ fn c05_run(kind: &str, hist_id: usize, calls: &[Call], margin: i64, shards: usiz
     });
     let mut status = String::from("ok");
     let mut recs = String::new();
-    match rx.recv_timeout(Duration::from_secs(60)) {
+    match rx.recv_timeout(Duration::from_secs(300)) {
         Ok(Some(out)) => recs = out.join("/"),
         Ok(None) => status = "panic".into(),
         Err(_) => status = "hang".into(),
@@ -1062,8 +1070,23 @@ fn gen_c05(seed: u64, n: usize, tier: &str) {
     let nh = if thorough { 4 * n } else { n };
     for h in 0..nh {
         let kind = if h % 2 == 1 { "visual" } else { "sort" };
-        let (calls, margin) = gen_c05_history(&mut rng, kind == "visual");
-        c05_run(kind, h, &calls, margin, 1, "free", None, 0);
+        // a history whose margin is too small is the generator's failure, not the implementation's: draw again
+        let (mut calls, mut margin) = gen_c05_history(&mut rng, kind == "visual");
+        let mut redrawn = 0;
+        while margin < 100 {
+            redrawn += 1;
+            let g = gen_c05_history(&mut rng, kind == "visual");
+            calls = g.0;
+            margin = g.1;
+        }
+        if redrawn > 0 {
+            println!("c05skip hist={} redrawn={}", h, redrawn);
+        }
+        // the reference is run several times: if a sequential one-shard tracker answers differently on identical
+        // input, the history contains an exact tie and is skipped by the driver
+        for _ in 0..4 {
+            c05_run(kind, h, &calls, margin, 1, "free", None, 0);
+        }
         for shards in 1..=8usize {
             if shards <= 3 {
                 for p in permutations(shards) {
